@@ -49,14 +49,18 @@ def snapshot(outdir):
     return snap
 
 
-def compile_all(idlc, main_arg, idir_arg, cwd, outdir):
-    """returns {backend: (rc, snapshot)}"""
+def compile_all(idlc, main_arg, idir_arg, cwd, outdir, stale=None):
+    """returns {backend: (rc, snapshot)}; stale = {backend: {file: text}}: files that already exist
+    at the output location, longer than anything generated (outputs depend on the inputs only)"""
     res = {}
     for lang, skel in BACKENDS:
         tag = lang + ("_skel" if skel else "")
         od = os.path.join(outdir, tag)
         shutil.rmtree(od, ignore_errors=True)
         os.makedirs(od)
+        for fn in ((stale or {}).get(tag) or {}):
+            with open(os.path.join(od, fn), "w") as fh:
+                fh.write("// stale line left by an earlier, longer revision of this file\n" * 4000)
         o = od if lang in ("rust", "java") else os.path.join(od, "out.h")
         r = scrape.idlc_run(idlc, main_arg, o, lang, skel, idirs=[idir_arg], cwd=cwd)
         res[tag] = (r[0], snapshot(od), r[2][-200:])
@@ -129,9 +133,11 @@ def run(ctx):
         shutil.rmtree(dotted, ignore_errors=True)
         shutil.copytree(root, dotted)
         variants.append(("relocated-dotted", os.path.join(dotted, "src/main.idl"), os.path.join(dotted, "inc"), dotted))
+        variants.append(("stale-outputs", A("src/main.idl"), A("inc"), root))
         ref, diffs, nruns = None, [], 0
         for name, m, i, cwd in variants:
-            r = compile_all(ctx["idlc"], m, i, cwd, os.path.join(outs, name))
+            stale = {tag: {fn: "" for fn in ref[tag][1]} for tag in ref} if (name == "stale-outputs" and ref) else None
+            r = compile_all(ctx["idlc"], m, i, cwd, os.path.join(outs, name), stale=stale)
             nruns += len(r)
             if ref is None:
                 ref = r
